@@ -4,7 +4,7 @@ from concurrent.futures import ThreadPoolExecutor
 
 LEVEL = "proof"
 LIBS = ["ShuffleUniform.vo"]
-PARTS = ["mod", "resid", "fy", "stat"]
+PARTS = ["mod", "resid", "cache", "fy", "stat"]
 
 def run(res, tier, seed, replay):
     res.cov["rule"] = ("records = real tmcg_mpz_{w,s,ss}random_mod / randomm / randomb and TMCG_CreateStackSecret calls whose random bytes are "
